@@ -894,6 +894,10 @@ func (t *queryTerm) QueryConditions(pc *parserContext) (ConditionsSet, error) {
 
 func (cs Conditions) invert() ConditionsSet {
 	// !(a & b & c) == !a | !b | !c
+	if len(cs) == 0 {
+		// the empty conjunction is always true
+		return ConditionsSet{Conditions{&impossibleCondition}}
+	}
 	res := ConditionsSet(nil)
 	for _, c := range cs {
 		res = res.Or(c.invert())
